@@ -94,6 +94,57 @@ def one(ctx, spec, inputs, runner, label, loop_ref=None, deterministic=True):
             ctx.violation("C17:values", f"{label}: values {core.short(o.values)} expected {core.short(exp)}", case)
 
 
+def cached_waiter_histories(ctx):
+    """A waiter that is served from a CACHE is a waiter all the same: in a loop whose gate (cache=True) reads a value
+    written early in the iteration and waits for the signal of the LAST body node, the gate starts once per production
+    of the signal - also in the second and third run on one backend, where its decisions are cache hits and its
+    function is never called. Judged on the delivered events (a cache hit leaves no call to log): every NodeStart of
+    the waiter needs a NodeEnd of the signal's producer since the waiter's previous NodeStart; values as without cache."""
+    from hypergraph import InMemoryCache
+    from hypergraph.events import NodeEndEvent, NodeStartEvent
+
+    rng = ctx.rng
+    Rec, ARec = rt.make_processors()
+    for N in (2, 4, 6):
+        for gate_kind in ("route", "ifelse"):
+            for cache_body in (False, True):
+              for t in (loops.lagged_signal_loop(N, 0, gate_kind), loops.early_read_signal_loop(N, 0, gate_kind)):
+                prod_name = "c" if t["template"].startswith("lagged") else "commit"
+                spec = copy.deepcopy(t["spec"])
+                for ns in spec["nodes"]:
+                    if ns["name"] == "gate" or (cache_body and ns["name"] in ("a", "b", "write", "review")):
+                        ns["cache"] = True
+                for runner in ("sync", "async"):
+                    cache = InMemoryCache()
+                    for rep in range(3):
+                        s_ = core.with_async(spec, runner == "async", rng)
+                        proc = Rec("p") if runner == "sync" else ARec("p", rng, 1)
+                        o = core.execute(s_, t["inputs"], runner, sched=rt.Sched(default="rand", rng=rng) if runner == "async" else None, cache=cache, processors=[proc], max_iterations=100)
+                        ctx.obs["cached_waiter_runs"] += 1
+                        case = {"spec": spec, "inputs": t["inputs"], "runner": runner, "variant": f"cached-waiter run {rep} on one cache"}
+                        if o.deadlock or o.inconclusive:
+                            ctx.inconc(o.inconclusive or "deadlock")
+                            continue
+                        if o.exc is not None or o.values != t["ref"]["values"]:
+                            ctx.violation("C17:live:cached-waiter-values", f"{runner} run {rep}: {o.status} {o.exc!r} values {core.short(o.values)}; the loop gives {core.short(t['ref']['values'])}", case)
+                            break
+                        produced, at_last, starts = 0, None, 0
+                        for ev in rt.events_of(o.rec, "p"):
+                            if isinstance(ev, NodeEndEvent) and ev.node_name == prod_name:
+                                produced += 1
+                            elif isinstance(ev, NodeStartEvent) and ev.node_name == "gate":
+                                starts += 1
+                                ctx.obs["s3_checked"] += 1
+                                if produced == 0:
+                                    ctx.violation("C17:S1-before-production", f"{runner} run {rep}: cached gate start #{starts} before its signal was ever produced", case)
+                                    break
+                                if at_last is not None and produced <= at_last:
+                                    ctx.violation("C17:S3-no-new-production", f"{runner} run {rep}: cached gate (served from the cache: {rep > 0}) start #{starts} although 'done' was not produced again since its previous start ({produced} productions so far)", case)
+                                    break
+                                at_last = produced
+                ctx.case({"cached-waiter": N, "gate": gate_kind, "body_cached": cache_body}, True)
+
+
 def run(ctx):
     n = 300 if ctx.tier == "quick" else 9000
     if ctx.replay:
@@ -102,6 +153,8 @@ def run(ctx):
         ctx.case("r1")
         ctx.case("r2")
         return
+    if ctx.shard[0] == 0:
+        cached_waiter_histories(ctx)
     sysn = 0
     for N in range(0, 10 if ctx.tier == "thorough" else 6):
         for kind, obs in (("counter", 0), ("chat", 0), ("counter", 2)):
